@@ -329,9 +329,19 @@ def run_views(d, on_read):
     o = new_nurbs(d['kind'], d['deg'], d['size'])
     for name, val in d['ops']:
         if name == 'sP':
-            o.ctrlpts = qpts(val)
+            lst = qpts(val)
+            o.ctrlpts = lst
+            # the caller goes on using the list he passed (the setter of a rational shape computes the homogeneous points from
+            # it, the views must not follow the caller's list afterwards)
+            for pt_ in lst:
+                for i_ in range(len(pt_)):
+                    pt_[i_] = pt_[i_] + 97
+            lst.reverse()
         elif name == 'sW':
-            o.weights = qs(val)
+            lst = qs(val)
+            o.weights = lst
+            for i_ in range(len(lst)):
+                lst[i_] = lst[i_] + 97
         elif name == 'sPw':
             o.ctrlptsw = qpts(val)
         elif name == 'gP':
